@@ -375,6 +375,46 @@ def h_vectors(ctx):
     return Outcome("vector-ok" if not vs else "vector-bad", vs, nontrivial=("vector", name))
 
 
+def h_long(ctx):
+    """Plaintexts around 64 KiB and its multiples (and compressed ones), in both directions."""
+    scen.register_drafts()
+    alg, kind0 = ctx.choose("alg/key", [("dir", "oct"), ("A128KW", "oct16"), ("ECDH-ES", "P-256"), ("RSA-OAEP", "rsa")])
+    enc = ctx.choose("enc", ["A128GCM", "A128CBC-HS256", "C20P"])
+    form = ctx.choose("form", c04.FORMS)
+    pname, plaintext = ctx.choose("plaintext", A.long_payloads())
+    zipv = ctx.choose("zip", [None, "DEF"])
+    direction = ctx.choose("direction", ["joserfc-to-ref", "ref-to-joserfc"])
+    kind = c04.pick_key_kind(alg, kind0, enc)
+    jwk = scen.key(kind)
+    prot = {"alg": alg, "enc": enc}
+    if zipv:
+        prot["zip"] = zipv
+    algs = [alg, enc, "DEF"]
+    tag = f"{alg} {ENC[enc][0]} {form}" + (" zip" if zipv else "")
+    what = f"alg={alg} key={kind} enc={enc} {form} zip={zipv} plaintext {pname}; {direction}"
+    vs = []
+    if direction == "joserfc-to-ref":
+        r = scen.jwe_encrypt(form, dict(prot), plaintext, A.jkey(jwk, "dict", private=(jwk["kty"] == "oct")), algs)
+        if not r.ok:
+            vs.append(viol(f"encryption of a long plaintext fails: {tag}", f"{what}: {r.exc!r}"))
+        else:
+            try:
+                if rjwe.decrypt(r.value, jwk)[0] != plaintext:
+                    vs.append(viol(f"independent implementation decrypts joserfc's long message to other content: {tag}", what))
+            except RefError as e:
+                vs.append(viol(f"independent implementation cannot decrypt joserfc's long message: {tag}", f"{what}: {e!r}"))
+            d = scen.jwe_decrypt(copy.deepcopy(r.value), A.jkey(jwk, "dict"), algs)
+            if not d.ok or d.value[0] != plaintext:
+                vs.append(viol(f"joserfc cannot decrypt its own long message: {tag}", f"{what}: {d.exc!r}"))
+    else:
+        token = rjwe.encrypt(prot, plaintext, [{"jwk": jwk if jwk["kty"] == "oct" else rjwk.public_of(jwk)}], form=form, rand=rjwe.Drbg(repr((alg, enc, form, pname, zipv)).encode()),
+                             param_pos="protected" if form == "compact" else "recipient")
+        d = scen.jwe_decrypt(token, A.jkey(jwk, "dict"), algs)
+        if not d.ok or d.value[0] != plaintext:
+            vs.append(viol(f"joserfc cannot decrypt a valid long JWE of the independent implementation: {tag}", f"{what}: {d.exc!r}"))
+    return Outcome(f"long:{'ok' if not vs else 'bad'}:{direction}", vs, nontrivial=(alg, enc, form, pname, zipv, direction))
+
+
 _pv = Part("rfc-vectors", h_vectors, split_depth=1)
 _pv.single_bucket_ok = True
 _pm = Part("ref-multi-recipient", h_ref_multi, split_depth=2)
@@ -405,6 +445,7 @@ PARTS = [
     Part("joserfc-to-ref", h_to_ref, bound={"quick": 1, "thorough": 2}, split_depth=2, budget={"quick": 1500, "thorough": 2400}),
     _pm, _pv, _pz, _pl,
     Part("rsa-paddings-cross", h_rsa_paddings, split_depth=2),
+    Part("long-plaintexts", h_long, split_depth=2),
     _pp8,
     Part("one-header-dict-several-messages-to-ref", h_again, bound={"quick": 0, "thorough": 1}, split_depth=2),
 ]
